@@ -59,21 +59,38 @@ func drive(args []string) error {
 	w := bufio.NewWriter(f)
 	defer w.Flush()
 	r := rand.New(rand.NewSource(*seed))
-	put := func(s l0.Schedule) {
-		b, _ := json.Marshal(s)
-		w.Write(append(b, '\n'))
-	}
+	var small, large []l0.Schedule
 	for i := 0; i < *mix; i++ {
-		put(operapi.MixSchedule(r, fmt.Sprintf("mix-s%d-%04d", *seed, i), i))
+		small = append(small, operapi.MixSchedule(r, fmt.Sprintf("mix-s%d-%04d", *seed, i), i))
 	}
 	for i := 0; i < *n; i++ {
 		// the store-level driver profile, unchanged; limits / retention as it draws them
 		cfg := l0.ProfileCfg(r, l0.RandomCfg(r), "operator")
 		o := l0.DriverOpts{Ops: *ops, IDs: 6, Routes: 1 + r.Intn(3), Targets: 1 + r.Intn(3), Explicit: r.Intn(3) == 0, Profile: "operator"}
-		put(l0.GenSchedule(r, fmt.Sprintf("drv-s%d-%04d", *seed, i), cfg, o))
+		small = append(small, l0.GenSchedule(r, fmt.Sprintf("drv-s%d-%04d", *seed, i), cfg, o))
 	}
 	for i := 0; i < *big; i++ {
-		put(operapi.BigSchedule(r, fmt.Sprintf("big-s%d-%04d", *seed, i), i))
+		large = append(large, operapi.BigSchedule(r, fmt.Sprintf("big-s%d-%04d", *seed, i), i))
+	}
+	// the large populations are spread evenly over the file (the orchestrator executes it in chunks)
+	put := func(s l0.Schedule) {
+		b, _ := json.Marshal(s)
+		w.Write(append(b, '\n'))
+	}
+	every := len(small) + 1
+	if len(large) > 0 {
+		every = len(small)/len(large) + 1
+	}
+	li := 0
+	for i, s := range small {
+		if i%every == 0 && li < len(large) {
+			put(large[li])
+			li++
+		}
+		put(s)
+	}
+	for ; li < len(large); li++ {
+		put(large[li])
 	}
 	fmt.Printf("{\"schedules\": %d}\n", *mix+*n+*big)
 	return nil
@@ -100,6 +117,7 @@ func run(args []string) error {
 	backends := fs.String("backends", "memory,sqlite", "backends")
 	spread := fs.Bool("spread", false, "execute every schedule on ONE (surface, backend) pair, taken in rotation, instead of on all")
 	only := fs.String("only", "", "execute only the schedule with this name")
+	bigOne := fs.Bool("big-one-backend", false, "schedules named big-*: one backend per surface (in rotation) instead of all")
 	scratch := fs.String("scratch", "", "scratch dir")
 	selftest := fs.String("selftest", os.Getenv("HKV_OPER_SELFTEST"), "harness self-test (dropstate)")
 	_ = fs.Parse(args)
@@ -143,8 +161,11 @@ func run(args []string) error {
 		if *spread {
 			jobs = append(jobs, job{s, sfs[k%len(sfs)], bes[(k/len(sfs))%len(bes)]})
 		} else {
-			for _, sf := range sfs {
-				for _, be := range bes {
+			for si, sf := range sfs {
+				for bi, be := range bes {
+					if *bigOne && strings.HasPrefix(s.Name, "big-") && (k+si)%len(bes) != bi {
+						continue // large populations: one backend per surface, in rotation
+					}
 					jobs = append(jobs, job{s, sf, be})
 				}
 			}
